@@ -53,6 +53,11 @@ def case_C14(seed):
         viol.append(('C14:point-to-segment-projection', f"projection {pi} is {G.gc_distance(pi, rpi)} m from the reference {rpi}", dict(info, got=(dist, pi, ti), ref=(rd, rpi, rti))))
     elif abs(ti - rti) * L > tol_d + 1e-6 * L:
         viol.append(('C14:point-to-segment-relative-position', f"relative position {ti} vs reference {rti}", dict(info, got=(dist, pi, ti), ref=(rd, rpi, rti))))
+    # --- constrain=False: foot of the perpendicular on the whole great circle, signed relative position (negative before s1)
+    du, piu, tiu = dl.distance_point_to_segment(p, s1, s2, constrain=False)
+    rdu, rpiu, rtiu = G.foot_on_great_circle(p, s1, s2)
+    if not viol and L > 1.0 and (not close(du, rdu, 1e-6, tol_d) or G.gc_distance(piu, rpiu) > tol_d + 1e-6 * abs(rtiu) * L or abs(tiu - rtiu) * L > tol_d + 1e-6 * L * (1 + abs(rtiu))):
+        viol.append(('C14:unconstrained-point-to-line', f"constrain=False: {(du, piu, tiu)} vs spherical reference {(rdu, rpiu, rtiu)}", info))
     # --- project() is the projection part of distance_point_to_segment (same clamping to the segment)
     ppi, pti = dl.project(s1, s2, p)
     if not viol and (G.gc_distance(ppi, pi) > 1e-6 or abs(pti - ti) > 1e-9):
@@ -130,12 +135,17 @@ def case_C20(seed):
     lat0, lon0 = rnd.choice(ANCHORS)
     p0 = (lat0 + rnd.uniform(-0.05, 0.05), lon0 + rnd.uniform(-0.05, 0.05))
     gp = [p0]
+    far = seed % 5 == 2          # 'every trace': legs of hundreds to thousands of kilometres as well (but shorter than a quarter of the globe)
     for _ in range(n - 1):
-        gp.append(G.destination(gp[-1], rnd.uniform(0, 360), 10 ** rnd.uniform(0, math.log10(60000))))
+        leg = 10 ** rnd.uniform(5.5, math.log10(9.0e6)) if far else 10 ** rnd.uniform(0, math.log10(60000))
+        q_ = G.destination(gp[-1], rnd.uniform(0, 360), leg)
+        if abs(q_[0]) > 80:
+            q_ = G.destination(gp[-1], 90.0, leg)
+        gp.append(q_)
     glens = [G.gc_distance(a, b) for a, b in zip(gp, gp[1:])] or [1.0]
     gdd = max(glens) * 10 ** rnd.uniform(-2, 1)
     gout = dl.interpolate_path(gp, gdd)
-    bad = check_interp(gp, gout, gdd, G.gc_distance, lambda q, a, b: G.nearest_on_arc(q, a, b)[0], 1e-9, tol_on=0.01)
+    bad = check_interp(gp, gout, gdd, G.gc_distance, lambda q, a, b: G.nearest_on_arc(q, a, b)[0], 1e-9, tol_on=(0.01 if not far else 1.0))
     if bad and not viol:
         viol.append(('C20:latlon-' + bad[0], f"interpolate_path(lat-lon, dd={gdd}): {bad[1]}", {'path': gp, 'dd': gdd}))
     return {'nontrivial': nontriv, 'violations': viol, 'sample': {'planar': pts, 'dd': dd}}
@@ -232,8 +242,9 @@ def case_C15(seed):
     origin = (lat0, lon0)
 
     if seed % 9 == 4:
-        # 'any longitude': the map straddles the antimeridian (the line runs through the grid, 1 to 3 units from its west side)
-        lon0 = 180.0 - math.degrees(rnd.choice([1.0, 2.0, 2.25, 3.0]) * s / (G.R * math.cos(math.radians(lat0))))
+        # 'any longitude': the map straddles the antimeridian - or the prime meridian - (the line runs through the grid, 1 to
+        # 3 units from its west side)
+        lon0 = (180.0 if seed % 18 == 4 else 0.0) - math.degrees(rnd.choice([1.0, 2.0, 2.25, 3.0]) * s / (G.R * math.cos(math.radians(lat0))))
         origin = (lat0, lon0)
 
     def to_ll(p):
